@@ -72,7 +72,9 @@ def shape(target: str) -> Callable:
 
 
 class _UF:
-    def __init__(self, fn: Callable, result: Any, length: Any, name: str, inverse_of: Any = None, upper: Any = None, blockwise: Any = None):
+    def __init__(self, fn: Callable, result: Any, length: Any, name: str, inverse_of: Any = None, upper: Any = None, blockwise: Any = None,
+                 native: bool = False):
+        self.native = native  # int -> int symbol that is a genuine solver function (usable under quantifiers), never evaluated concretely
         self.blockwise = blockwise  # (block size, index of the counter arg, index of the payload arg): counter-mode definition law
         self.upper = upper  # optional: upper bound of an int result as a function of the (concrete) arguments
         self.fn = fn
@@ -87,7 +89,7 @@ class _UF:
 
 
 def uninterpreted(result: Any = bytes, length: Any = None, name: Optional[str] = None, inverse_of: Any = None, upper: Any = None,
-                  blockwise: Any = None) -> Callable:
+                  blockwise: Any = None, native: bool = False) -> Callable:
     """Spec-level uninterpreted function.  Symbolically: fresh result + congruence; at run time: fn.
     inverse_of=(F, shared, payload) adds the law  G(shared.., F(shared.., x)) == x  (A-crypto-laws).
     blockwise=(bs, counter_idx, payload_idx) adds the definition of counter mode: on a payload of k*bs bytes (k concrete, > 1) the
@@ -95,7 +97,7 @@ def uninterpreted(result: Any = bytes, length: Any = None, name: Optional[str] =
     number (so only the single-block function stays uninterpreted)."""
 
     def deco(fn: Callable) -> _UF:
-        u = _UF(fn, result, length, name or fn.__name__, inverse_of, upper, blockwise)
+        u = _UF(fn, result, length, name or fn.__name__, inverse_of, upper, blockwise, native)
         REGISTRY["ufs"][u.name] = u
         return u
 
